@@ -510,9 +510,115 @@ pub fn meta(tier: Tier) -> Meta {
     Meta {
         id: "C07",
         level: "exploration",
-        rule: "exhaustive sweeps of finite lattices of the pure arithmetic functions: (1) next_epoch_ext on the cartesian grid lengths{7} x uncles{7} x durations{11} x difficulties{6} x previous-hash-rate{up to 15 points around both clamp boundaries}; (2) every epoch length 1..=1800 x 9 epoch rewards x every block index, plus the halving schedule; (3) all EpochNumberWithFraction pairs with number<=3,length<=5,index<=5; (4) compact/target/difficulty laws on all exponents x 11 mantissas (quick) or ALL 2^32 compact values (thorough); (5) Eaglesong acceptance on 13 targets x 64 nonces. A case is non-trivial when it lies in the dynamic branch with a representable reference value / has a non-zero remainder / verifies; distinct by its parameters.",
+        rule: "exhaustive sweeps of finite lattices of the pure arithmetic functions: (1) next_epoch_ext on the cartesian grid lengths{7} x uncles{7} x durations{11} x difficulties{6} x previous-hash-rate{up to 15 points around both clamp boundaries}; (2) every epoch length 1..=1800 x 9 epoch rewards x every block index, plus the halving schedule; (3) all EpochNumberWithFraction pairs with number<=3,length<=5,index<=5; (4) compact/target/difficulty laws on all exponents x 11 mantissas (quick) or ALL 2^32 compact values (thorough); (5) Eaglesong acceptance on 13 targets x 64 nonces; (6) the statistics next_epoch_ext is fed with: the trait's default EpochProvider::get_block_epoch over a store holding two 12-block chains (3 epochs of 4) that fork at every height 1..=11, side-chain block interval {8 s, 10 s, 8.001 s} x uncles per block {0,1} x either chain being the main one, for every block of both chains: tail recognition, duration and uncle count measured against the last block of the previous epoch on the block's own chain. A case is non-trivial when it lies in the dynamic branch with a representable reference value / has a non-zero remainder / verifies; distinct by its parameters.",
         assumptions: &["reference = RFC 0020 formulas in exact big-integer rationals (num-bigint-dig); values whose reference result does not fit U256 are skipped", "Eaglesong output recomputed with the same eaglesong crate; only the comparison against the target is independent"],
         bounds: json!({"compact_sweep": if tier.is_thorough() { "2^32" } else { "256x11" }}),
+    }
+}
+
+
+// ---- (6) the statistics next_epoch_ext is fed with: EpochProvider::get_block_epoch on forks ----
+//
+// The trait's own (default) get_block_epoch over a store that holds two chains sharing a prefix:
+// for every tail block of an epoch - on the main chain and on the side chain - the duration and
+// uncle count must be measured against the last block of the previous epoch ON THAT CHAIN.
+
+struct ForkStore {
+    headers: std::collections::HashMap<packed::Byte32, HeaderView>,
+    exts: std::collections::HashMap<packed::Byte32, BlockExt>,
+    epochs: std::collections::HashMap<packed::Byte32, EpochExt>,
+    main: std::collections::HashMap<BlockNumber, packed::Byte32>,
+}
+
+impl EpochProvider for ForkStore {
+    fn get_epoch_ext(&self, h: &HeaderView) -> Option<EpochExt> {
+        self.epochs.get(&h.hash()).cloned()
+    }
+    fn get_block_hash(&self, n: BlockNumber) -> Option<packed::Byte32> {
+        self.main.get(&n).cloned()
+    }
+    fn get_block_ext(&self, h: &packed::Byte32) -> Option<BlockExt> {
+        self.exts.get(h).cloned()
+    }
+    fn get_block_header(&self, h: &packed::Byte32) -> Option<HeaderView> {
+        self.headers.get(h).cloned()
+    }
+    // get_block_epoch: the trait's default, which is what the node runs
+}
+
+fn fork_statistics(report: &mut Report) {
+    const L: u64 = 4; // epoch length; epochs 0 (blocks 0..=3), 1 (4..=7), 2 (8..=11)
+    let ext = |uncles: u64| BlockExt { received_at: 0, total_difficulty: U256::zero(), total_uncles_count: uncles, verified: Some(true), txs_fees: vec![], cycles: None, txs_sizes: None };
+    for fork_at in 1..=11u64 {
+        for step_b in [8_000u64, 10_000, 8_001] {
+            for uncles_b in [0u64, 1] {
+                for main_is_b in [false, true] {
+                    let mut store = ForkStore { headers: Default::default(), exts: Default::default(), epochs: Default::default(), main: Default::default() };
+                    // chain[c][n]
+                    let mut chains: Vec<Vec<HeaderView>> = vec![vec![], vec![]];
+                    let mut uncle_totals: Vec<Vec<u64>> = vec![vec![], vec![]];
+                    for c in 0..2usize {
+                        let mut parent = packed::Byte32::zero();
+                        let mut ts = 1_000_000u64;
+                        let mut total_uncles = 0u64;
+                        for n in 0..=11u64 {
+                            let forked = c == 1 && n >= fork_at;
+                            if n > 0 {
+                                ts += if forked { step_b } else { 8_000 };
+                                total_uncles += if forked { uncles_b } else { 0 };
+                            }
+                            let e = n / L;
+                            let header = if c == 1 && n < fork_at {
+                                chains[0][n as usize].clone()
+                            } else {
+                                HeaderBuilder::default().number(n).parent_hash(parent.clone()).timestamp(ts).nonce(c as u128).epoch(EpochNumberWithFraction::new(e, n % L, L)).build()
+                            };
+                            let last_prev = if e == 0 { packed::Byte32::zero() } else { chains[c].get((e * L - 1) as usize).map(|h: &HeaderView| h.hash()).unwrap() };
+                            let epoch = EpochExt::new_builder().number(e).base_block_reward(Capacity::shannons(1_000)).remainder_reward(Capacity::shannons(3)).previous_epoch_hash_rate(U256::one()).last_block_hash_in_previous_epoch(last_prev).start_number(e * L).length(L).compact_target(0x2001_0000).build();
+                            store.headers.insert(header.hash(), header.clone());
+                            store.exts.insert(header.hash(), ext(total_uncles));
+                            store.epochs.insert(header.hash(), epoch);
+                            if (c == 1) == main_is_b {
+                                store.main.insert(n, header.hash());
+                            }
+                            parent = header.hash();
+                            chains[c].push(header);
+                            uncle_totals[c].push(total_uncles);
+                        }
+                    }
+                    for c in 0..2usize {
+                        for n in 0..=11u64 {
+                            let header = &chains[c][n as usize];
+                            let label = json!({"family": "fork-statistics", "fork_at": fork_at, "side_step_ms": step_b, "side_uncles_per_block": uncles_b, "main_chain_is_side": main_is_b, "chain": c, "block": n});
+                            report.evaluations += 1;
+                            let got = std::panic::catch_unwind(std::panic::AssertUnwindSafe(|| store.get_block_epoch(header)));
+                            let is_tail = n % L == L - 1;
+                            match got {
+                                Err(_) => report.violation("fork-statistics/panic", format!("get_block_epoch panicked for block {n} of chain {c}"), label),
+                                Ok(None) => report.violation("fork-statistics/none", format!("get_block_epoch answered None for block {n} of chain {c}"), label),
+                                Ok(Some(BlockEpoch::NonTailBlock { epoch })) => {
+                                    if is_tail || epoch.number() != n / L {
+                                        report.violation("fork-statistics/tail-missed", format!("block {n} (epoch length {L}) was not recognised as the epoch's tail"), label);
+                                    }
+                                }
+                                Ok(Some(BlockEpoch::TailBlock { epoch, epoch_uncles_count, epoch_duration_in_milliseconds })) => {
+                                    let base = (n / L * L).saturating_sub(1) as usize;
+                                    let want_d = header.timestamp() - chains[c][base].timestamp();
+                                    let want_u = uncle_totals[c][n as usize] - uncle_totals[c][base];
+                                    report.nontrivial.insert(fp(&(fork_at, step_b, uncles_b, main_is_b, c, n)));
+                                    report.outcomes.insert(fp(&("fork-stat", want_d, want_u)));
+                                    if !is_tail || epoch.number() != n / L {
+                                        report.violation("fork-statistics/not-a-tail", format!("block {n} reported as tail of epoch {}", epoch.number()), label);
+                                    } else if epoch_duration_in_milliseconds != want_d || epoch_uncles_count != want_u {
+                                        report.violation("fork-statistics/wrong-base-block", format!("tail block {n} of {} chain (fork at {fork_at}): duration {epoch_duration_in_milliseconds} ms / {epoch_uncles_count} uncles, measured on its own chain {want_d} ms / {want_u} uncles", if (c == 1) == main_is_b { "the main" } else { "the side" }), label);
+                                    }
+                                }
+                            }
+                        }
+                    }
+                }
+            }
+        }
     }
 }
 
@@ -525,6 +631,7 @@ pub fn run(ctx: &Ctx) -> Report {
     fractions(&mut report);
     compact_laws(ctx, &mut report);
     pow(&mut report);
+    fork_statistics(&mut report);
     let _ = std::panic::take_hook();
     report.traces = report.evaluations;
     report.states.insert(1);
